@@ -89,15 +89,22 @@ def check(run):
 
     # R2 authentication gate
     pick = ix.func(MM, "Memoer.pick")
-    top = [n for n in pick.node.body if isinstance(n, ast.If) and dotted(n.test) == "curt"]
+    flags = {t.id for n in pick.node.body if isinstance(n, ast.Assign) and isinstance(n.value, ast.Call) and is_self_call(n.value, "wiff")
+             for t in n.targets if isinstance(t, ast.Name)}
+    codes = {dotted(n.slice) for n in walk_local(pick.node) if isinstance(n, ast.Subscript) and dotted(n.value) == "self.Sizes"}
+    top = [n for n in pick.node.body if isinstance(n, ast.If) and dotted(n.test) in flags]
+    if not top or len(codes) != 1:
+        run.inconclusive_at("C22.R2", run.site(pick), "pick(): encoding flag from self.wiff() / gram code indexing self.Sizes not recognised")
+        return
+    codev = sorted(codes)[0]
     for branch, body in (("b2", top[0].body), ("b64", top[0].orelse)) if top else ():
         gate = None
         for st in body:
             if isinstance(st, ast.If) and st.body and isinstance(st.body[-1], ast.Raise):
                 t = unparse(st.test)
-                if "self.authic" in t and "code not in self.Audex" in t and isinstance(st.test, ast.BoolOp) and isinstance(st.test.op, ast.And):
+                if "self.authic" in t and ("%s not in self.Audex" % codev) in t and isinstance(st.test, ast.BoolOp) and isinstance(st.test.op, ast.And):
                     gate = st
-        sizes_use = [st for st in body if isinstance(st, ast.Assign) and "self.Sizes[code]" in unparse(st.value)]
+        sizes_use = [st for st in body if isinstance(st, ast.Assign) and ("self.Sizes[%s]" % codev) in unparse(st.value)]
         ok = gate is not None and bool(sizes_use) and gate.lineno < sizes_use[0].lineno
         kind = dotted(gate.body[-1].exc.func) if gate is not None and isinstance(gate.body[-1].exc, ast.Call) else None
         ok = ok and kind is not None and run.lat.issub(run.lat.canon(kind), "MemoerError")
@@ -119,7 +126,12 @@ def check(run):
             if isinstance(p, ast.If):
                 gs.append(unparse(p.test))
             p = parent(p)
-    ok = len(calls) == 1 and gs == ["sig"]
+    # the signature is the local taken from the tail of the gram (negative / conditional lower bound) and handed to verify()
+    gparam = pick.params()[0][1]
+    sigvars = {t.id for n in walk_local(pick.node) if isinstance(n, ast.Assign) for t in n.targets if isinstance(t, ast.Name)
+               if any(isinstance(x, ast.Subscript) and dotted(x.value) == gparam and isinstance(x.slice, ast.Slice) and x.slice.upper is None
+                      and isinstance(x.slice.lower, (ast.IfExp, ast.UnaryOp)) for x in ast.walk(n.value))}
+    ok = len(calls) == 1 and len(gs) == 1 and gs[0] in sigvars and gs[0] in {dotted(a) for a in calls[0].args}
     run.ob("C22.R2", "%s:verify-guarded-by-sig-only" % pick.fq, ok, run.site(pick, calls[0]) if calls else run.site(pick),
            "" if ok else "self.verify(...) must be called whenever a signature is present; guards found: %s" % gs)
     ret = [n for n in walk_local(pick.node) if isinstance(n, ast.Return)]
